@@ -8,7 +8,7 @@ ID = "C18"
 COQ_DIR = "C18"
 RUN_MOD = "C18.Run"
 MODEL_TARGETS = ["C18/Run.vo"]
-PROOF_TARGETS = ["C18/Lemmas.vo", "C18/LemmasLadder.vo", "C18/LemmasRange.vo"]
+PROOF_TARGETS = ["C18/Lemmas.vo", "C18/LemmasLadder.vo", "C18/LemmasCoord.vo", "C18/LemmasRange.vo"]
 PROPS = ["C18/Props.v"]
 ALLOWED_AXIOMS = []
 IMPL_TIMEOUT = 10.0
@@ -19,14 +19,17 @@ RULE = ("generated worksheets (harness-side mock of an openpyxl worksheet): 1-5 
         "with and without default), known columns permuted, unknown and blank-titled columns before/between/after, "
         "duplicate titles, 0-3 leading blank rows (None or whitespace-only), blank/invalid cells, both end-of-table rules "
         "with an end row and trailing content, ladder sheets with 1-3 levels and runs of blanks over several rows, "
-        "sheets wider than 26 columns (range groups across the Z/AA boundary).  Non-trivial = distinct case that "
-        "yields at least one object.")
+        "sheets wider than 26 columns (range groups across the Z/AA boundary; corpus: ZZ/AAA boundary, duplicate titles inside "
+        "the range group, ladder range cells of different rows, row 9/10).  Non-trivial = distinct case that yields at least "
+        "one object.")
 TRUSTED_BASE = [
-    "gen/C18_Consts.v: CellBool/_CellReader value sets, origin markers, the 'blank first' and '*' literals and the shape "
-    "of get_attr_origin's range text (sorted(origins.values()) without key) are read from ak/xlsread.py by "
-    "harness/props/c18.py:gen_consts (ast, fail-closed)",
-    "python semantics used by the model: str.strip()/str.isspace() code points, str(int)/str(bool), == and hash across "
-    "int/bool/str/None, str ordering by code point, dict insertion order (compared on every run by the correspondence check)",
+    "gen/C18_Consts.v: CellBool/_CellReader value sets, origin markers, the 'blank first' and '*' literals are read from "
+    "ak/xlsread.py by harness/props/c18.py:gen_consts (ast, fail-closed); the same extractor insists that get_attr_origin's "
+    "range text is sorted(origins.values(), key=_coord_sort_key) and that _coord_sort_key is statement for statement the "
+    "function modelled as Model.coord_sort_key (rstrip of the ASCII digits, (len(col), col, int(row)))",
+    "python semantics used by the model: str.strip()/str.isspace() code points, str.rstrip(chars), int() of an ASCII digit "
+    "string, str(int)/str(bool), == and hash across int/bool/str/None, str and tuple ordering, stability of sorted(), dict "
+    "insertion order (compared on every run by the correspondence check)",
     "the harness-side mock worksheet yields rectangular rows from A1 with openpyxl coordinates (column letters + 1-based row)",
 ]
 ASSUMPTIONS = [
@@ -127,6 +130,13 @@ def _const_str_assigns(body, target):
     return out
 
 
+_KEY_FN_NAME = "_coord_sort_key"
+_KEY_FN_REF = ("def _coord_sort_key(coord):\n"
+               "    col = coord.rstrip('0123456789')\n"
+               "    return len(col), col, int(coord[len(col):])\n")
+_SORTED_REF = "cells_coords = sorted(origins.values(), key=_coord_sort_key)"
+
+
 def gen_consts(repo):
     src = open(os.path.join(repo, "ak", "xlsread.py")).read()
     tree = ast.parse(src)
@@ -165,19 +175,31 @@ def gen_consts(repo):
     if marker_na is None or marker_skipped is None or not coord_ok:
         raise ExtractError("XlsObject.__init__: origin recording chain not recognised")
 
-    # get_attr_origin: sorted(origins.values()) without key, the two markers
+    # get_attr_origin: cells_coords = sorted(origins.values(), key=_coord_sort_key), the two markers;
+    # _coord_sort_key: exactly the function modelled as Model.coord_sort_key
+    key_fn = None
+    for n in tree.body:
+        if isinstance(n, ast.FunctionDef) and n.name == _KEY_FN_NAME:
+            key_fn = n
+    if key_fn is None:
+        raise ExtractError(f"module function {_KEY_FN_NAME} not found: get_attr_origin's range text is not sorted by "
+                           "(column, row) keys; the model of the range text (Model.range_text) must be revised")
+    body = [st for st in key_fn.body
+            if not (isinstance(st, ast.Expr) and isinstance(st.value, ast.Constant) and isinstance(st.value.value, str))]
+    ref = ast.parse(_KEY_FN_REF).body[0]
+    if ast.dump(key_fn.args) != ast.dump(ref.args) or key_fn.decorator_list \
+            or [ast.dump(st) for st in body] != [ast.dump(st) for st in ref.body]:
+        raise ExtractError(f"{_KEY_FN_NAME} is not the modelled key function; Model.coord_sort_key must be revised")
     gao = _method(xo, "get_attr_origin")
     sorted_plain = False
     marker_range_empty = marker_key_na = None
+    ref_sorted = ast.dump(ast.parse(_SORTED_REF).body[0].value)
     for node in ast.walk(gao):
         if isinstance(node, ast.Assign) and len(node.targets) == 1 and _is_name(node.targets[0], "cells_coords"):
-            v = node.value
-            if isinstance(v, ast.Call) and _is_name(v.func, "sorted") and len(v.args) == 1 and not v.keywords \
-                    and isinstance(v.args[0], ast.Call) and isinstance(v.args[0].func, ast.Attribute) \
-                    and v.args[0].func.attr == "values" and _is_name(v.args[0].func.value, "origins"):
+            if ast.dump(node.value) == ref_sorted:
                 sorted_plain = True
             else:
-                raise ExtractError("get_attr_origin: cells_coords is no longer sorted(origins.values()); "
+                raise ExtractError(f"get_attr_origin: cells_coords is not {_SORTED_REF.split(' = ')[1]}; "
                                    "the model of the range text must be revised")
         if isinstance(node, ast.Assign) and len(node.targets) == 1 and _is_name(node.targets[0], "cells_range_descr") \
                 and isinstance(node.value, ast.Constant) and isinstance(node.value.value, str):
@@ -972,6 +994,9 @@ def oracle(case, obs):
         if len(items) != len(data_idx):
             sig = "row-count"
             if ladder and stop == "blank first" and len(items) < len(data_idx):
+                # the open finding, and nothing else: the reading ended (without exception) at the first data row of the
+                # filled-in table it did not yield, the ladder starts in the first sheet column, and that row's own first
+                # cell is blank although it is not blank once filled in ('same as above')  [Props.ladder_prefix]
                 r_stop = data_idx[len(items)]
                 fcp = next((i for i, x in enumerate(titles) if x), None)
                 if fcp == 0 and _is_blank(rows[r_stop][0]) and not _is_blank(filled[r_stop][0]):
@@ -1121,7 +1146,11 @@ def oracle(case, obs):
             if stop == "blank first" and err is None and len(mine) <= len(theirs) and mine == theirs[:len(mine)]:
                 t2, d2 = _table_rows(filled, stop)
                 fcp = next((i for i, x in enumerate(titles) if x), None)
-                if len(mine) < len(d2) and fcp == 0 and _is_blank(rows[d2[len(mine)]][0]):
+                # exactly the open finding: ladder, stop_on='blank first', the ladder starts in the first sheet column,
+                # the readings agree up to a row whose own first cell is blank ('same as above': non-blank once filled in),
+                # where the ladder reading ended without an exception
+                if len(mine) < len(d2) and fcp == 0 and _is_blank(rows[d2[len(mine)]][0]) \
+                        and not _is_blank(filled[d2[len(mine)]][0]):
                     sig = "ladder-blank-first"
             add(sig, f"ladder reading gives {len(mine)} items (err {err}), the filled-in table read plainly gives "
                      f"{len(theirs)} (err {f['err']}); rows={rows!r} stop_on={stop!r}; first difference at "
@@ -1256,7 +1285,24 @@ def shrink_candidates(case):
 TECHNIQUE = ("Coq proofs (structural induction over rows / columns, invariants of the row loop, refinement of the ladder "
              "loop to a fill-down specification) on a hand-written Gallina model + per-run correspondence check "
              "(vm_compute vs implementation on generated worksheets) + constants regenerated from the source")
-LEVEL_TEXT = "see harness/props/c18.notes.md"
+LEVEL_TEXT = ("Full (model level, all sheets / rule sets, unbounded rows and columns): origin_consistent (every attribute of every "
+              "produced object is the conversion of the sheet cell(s) at its recorded origin, in a column with the declared / "
+              "detected title, or the declared default with the marker origin), origin_reported + range_key_consistent "
+              "(get_attr_origin renders exactly the recorded origin, per key too), rows_in_order (one item per data row, in order, "
+              "up to the end row of the chosen rule; origins lie in the object's row, ladder: between the first data row and the "
+              "object's row), range_detect + range_columns (the range group is the first maximal run of titled unknown columns), "
+              "range_text_extremes + range_text (the text of a whole ranged attribute is '<leftmost source cell>:<rightmost source "
+              "cell>' for any number of columns -- A..Z, AA.. are proved to be ordered by the sort key -- and for source cells of "
+              "different rows as in a ladder reading), ladder_origins (ladder: every origin, single-cell or per key of a ranged "
+              "attribute, is the cell that holds what the filled-in table has, the object's own cell unless that is blank), "
+              "ladder_equiv (ladder reading = plain reading of the filled-in table, default end rule) and ladder_equiv_guarded "
+              "('blank first' when the first sheet column is not part of the ladder).  Refuted: ladder_equiv_statement (both end "
+              "rules) by ladder_blank_first_refuted -- open finding ladder-blank-first; what does hold there is ladder_prefix (the "
+              "ladder reading is a prefix of the filled-in reading and ends, without exception, at a row whose first cell is blank).  "
+              "Tested only (correspondence + oracle, no theorem): that a reading raises only where a declared rule cannot be applied "
+              "(oracle signature unexpected-error), that a row yields None only when its id values are all None (spurious-none), the "
+              "incl_ws prefix (not modelled).  Theorems are about the Gallina model; its agreement with ak/xlsread.py is checked per "
+              "run, not proved.")
 LEVEL_NOTE = ("Trusted: Coq kernel + vm_compute; fidelity of the hand model (checked by correspondence, not proved); "
               "python str/==/sorting semantics mirrored in the model; the ast extractor and harness.")
 DESIGN_REF = "DESIGN.md section 8, C18"
